@@ -78,3 +78,7 @@ def kf_d20(cfg, prefix, v):
 
 
 PREDICATES = {"KF-D18": kf_d18, "KF-D14": kf_d14, "KF-D20": kf_d20}
+
+
+def classify_c05(hist, verdict):
+    return []
